@@ -1,8 +1,8 @@
 HOOK_COMMITS = []
 ENGINES = [
     {"name": "explore", "path": "vf/core/explore.py", "serves_properties": ["C01", "C02", "C03", "C07", "C08", "C09", "C11", "C13", "C14", "C15", "C04", "C12", "C16", "C17", "C18", "C20"], "kind_free_text": "explicit-state BFS with state merging over the real objects; bounded product enumeration; deviation-bounded stateless DFS"},
-    {"name": "vthreads", "path": "vf/core/vthreads.py", "serves_properties": ["C06", "C19"], "kind_free_text": "baton scheduler over real threads with scheduler-aware queue/future/executor shims and sys.settrace line points; deviation-bounded DFS over schedules; deadlock and livelock detection"},
-    {"name": "vloop", "path": "vf/core/vloop.py", "serves_properties": ["C05", "C06", "C10", "C19"], "kind_free_text": "virtual asyncio event loop stepped by hand: ready-queue steps, environment events and timers are explicit choices explored exhaustively by explore.dfs"},
+    {"name": "vthreads", "path": "vf/core/vthreads.py", "serves_properties": ["C01", "C05", "C06", "C07", "C08", "C09", "C14", "C19", "C20"], "kind_free_text": "baton scheduler over real threads with scheduler-aware queue/future/executor shims and sys.settrace line points; deviation-bounded DFS over schedules; deadlock and livelock detection"},
+    {"name": "vloop", "path": "vf/core/vloop.py", "serves_properties": ["C01", "C02", "C05", "C06", "C07", "C08", "C09", "C10", "C19", "C20"], "kind_free_text": "virtual asyncio event loop stepped by hand: ready-queue steps, environment events and timers are explicit choices explored exhaustively by explore.dfs"},
 ]
 NOT_APPLICABLE = {}
 CHECKS = {
@@ -15,13 +15,13 @@ CHECKS = {
     "C08": dict(
         engine="explore", level="exploration", design_ref="DESIGN.md §3 C08",
         technique="bounded exhaustive enumeration of ordered route tables x paths against a regex-free reference matcher",
-        text="Every ordered table of <=2 (thorough 3) patterns from an 18-pattern list (all convertor types, literals with regex metacharacters) x every path of <=2 (3) segments from a 25-value segment list incl. near-misses, trailing newline, Unicode digits and 5000-digit numbers, through both Router classes and the gateway drivers; endpoint identity and typed parameters compared with a hand-written matcher; to_string round trip for every listed denoted value.",
+        text="Every ordered table of <=2 (thorough 3) patterns from an 18-pattern list (all convertor types, literals with regex metacharacters) x every path of <=2 (3) segments from a 25-value segment list incl. near-misses, trailing newline, Unicode digits and 5000-digit numbers, through both Router classes and the gateway drivers; endpoint identity and typed parameters compared with a hand-written matcher; to_string round trip for every listed denoted value. Endpoints use their path_params mapping as scratch space and every instance serves its request list again backwards and below a mount root; two requests at once on one Router (threads with line-level points, ASGI tasks).",
         note="pattern shapes with a unique split only; finite pattern and segment lists; reference language predicates written by hand from the property text",
     ),
     "C09": dict(
         engine="explore", level="exploration", design_ref="DESIGN.md §3 C09",
         technique="bounded exhaustive enumeration of mount/host tables x requests against a prefix-rule reference, with request histories per app instance",
-        text="Every sequence of <=3 mount entries over 5 overlapping prefixes, nesting to depth 3, x 14 paths x 2 initial root paths, and every sequence of <=3 host patterns x 13 Host values, on both interfaces through the gateway drivers; each app instance serves the whole request list forward and backward so that state leaking between requests is seen; leaf observes (entry, root path, path).",
+        text="Every sequence of <=3 mount entries over 5 overlapping prefixes, nesting to depth 3, x 14 paths x 2 initial root paths, and every sequence of <=3 host patterns x 13 Host values, on both interfaces through the gateway drivers; each app instance serves the whole request list forward and backward so that state leaking between requests is seen; leaf observes (entry, root path, path). Two requests at once on one Subpaths/Hosts object (WSGI threads with line-level scheduling points, ASGI tasks with gated sends).",
         note="finite prefix/path/host lists; host patterns judged by hand-written predicates",
     ),
     "C17": dict(
@@ -45,13 +45,13 @@ CHECKS = {
     "C10": dict(
         engine="vloop", level="model_checking", design_ref="DESIGN.md §3 C10",
         technique="exhaustive access-sequence enumeration against a caching reference model (WSGI, ASGI) plus stateless exploration of every task/message interleaving on a virtual asyncio loop",
-        text="Sequential: every access sequence up to depth 3 (thorough 4) over {body, stream fully, stream first chunk, json, form, close} x 5 body kinds x all splits into <=3 reads/messages incl. empty messages and (ASGI) disconnect positions, step-wise against a reference model of the documented caching rules, with identity of repeated results and receive accounting. Concurrent (ASGI): 1225 two-task programs (thorough adds three-task programs) x message scripts; every interleaving of task steps and in-order message deliveries is executed on the real Request under a virtual event loop; each result must be complete or a documented error, no task may be left stuck, no receive after the final message.",
+        text="Sequential: every access sequence up to depth 3 (thorough 4) over {body, stream fully, stream first chunk, json, form, close} x 5 body kinds x all splits into <=3 reads/messages incl. empty messages and (ASGI) disconnect positions, step-wise against a reference model of the documented caching rules, with identity of repeated results and receive accounting. Concurrent (ASGI): 1225 two-task programs (thorough adds three-task programs) x message scripts; every interleaving of task steps and in-order message deliveries is executed on the real Request under a virtual event loop; each result must be complete or a documented error, no task may be left stuck, no receive after the final message. Two different requests in progress at once on one loop (one Request object each): every interleaving of their message deliveries; results must equal those obtained alone.",
         note="virtual loop models the asyncio contract (FIFO ready queue, I/O completions at arbitrary points); is_disconnected() and cancellation outside the alphabet; bodies are five fixed small bodies",
     ),
     "C01": dict(
         engine="explore", level="model_checking", design_ref="DESIGN.md §3 C01",
         technique="explicit-state search with state merging over the real event-level decoder covering every partition of each body; exhaustive chunking families on the four helper/accessor paths",
-        text="For every body of a corpus (6 boundaries x 20 hostile contents, multi-part forms with awkward names, every content string up to length 3 (thorough 5) over the delimiter's own alphabet) a BFS over (position, decoder state, buffer, normalised output) with transitions 'feed the next k bytes, k = 0..rest' runs the real MultipartDecoder on every partition of the body into chunks (2^(n-1) of them, plus empty chunks); the output must stay a prefix of the encoded form and equal it at end of input. The stream helpers and both Request.form accessors are run under whole / byte-wise / every fixed size / every 1-cut (with empty chunk) / every 2-cut chunkings of 5 forms with multi-byte text.",
+        text="For every body of a corpus (6 boundaries x 20 hostile contents, multi-part forms with awkward names, every content string up to length 3 (thorough 5) over the delimiter's own alphabet) a BFS over (position, decoder state, buffer, normalised output) with transitions 'feed the next k bytes, k = 0..rest' runs the real MultipartDecoder on every partition of the body into chunks (2^(n-1) of them, plus empty chunks); the output must stay a prefix of the encoded form and equal it at end of input. The stream helpers and both Request.form accessors are run under whole / byte-wise / every fixed size / every 1-cut (with empty chunk) / every 2-cut chunkings of 5 forms with multi-byte text. Also two parses in progress at once (two tasks on the virtual loop / two controlled threads), every interleaving of their chunk hand-overs: each must return its own form.",
         note="bodies come from a reference encoder (CRLF framing); state merge relies on next_event depending only on (state, buffer, complete); finite corpus",
     ),
     "C15": dict(
@@ -75,7 +75,7 @@ CHECKS = {
     "C14": dict(
         engine="explore", level="model_checking", design_ref="DESIGN.md §3 C14",
         technique="exhaustive enumeration of modification/request histories on a virtualised file clock against version bookkeeping, one long-lived app instance per history",
-        text="Every history up to depth 3 (thorough 4) over 7 modifications (rewrite same/other size, touch; +0/+1/+3600 s) x 'run the request battery here or not'; the battery issues a plain GET and 8 validator forms (ETag, Last-Modified, both, list, weak, weak in list with and without space, *) for the validators of every version recorded so far, on Files and Pages, WSGI and ASGI, each app instance living through the whole history. 304 only for the unchanged version (and empty), 200 with new content and a new ETag after a change, own ETag always revalidates.",
+        text="Every history up to depth 3 (thorough 4) over 7 modifications (rewrite same/other size, touch; +0/+1/+3600 s) x 'run the request battery here or not'; the battery issues a plain GET and 8 validator forms (ETag, Last-Modified, both, list, weak, weak in list with and without space, *) for the validators of every version recorded so far, on Files and Pages, WSGI and ASGI, each app instance living through the whole history. 304 only for the unchanged version (and empty), 200 with new content and a new ETag after a change, own ETag always revalidates. Also the return of the original copy with its old modification time (change time = now), and two requests in two threads on one Files/Pages object with a scheduling point on every source line (stale vs current validators).",
         note="os.stat wrapped for the harness tree (mtime = ctime = virtual time); a same-second change is not judged for a request carrying only the date; depth bound",
     ),
     "C18": dict(
@@ -87,19 +87,19 @@ CHECKS = {
     "C02": dict(
         engine="explore", level="exploration", design_ref="DESIGN.md §3 C02",
         technique="bounded exhaustive enumeration of (file size, chunk size, Range, If-Range, method, interface) against a set-semantics range reference and a sequential multipart/byteranges reader",
-        text="8 (thorough 15) file sizes x chunk sizes {1,2,4,default} x every ordered set of <=2 (3) range specs over {0,1,2,size-1,size,size+1} plus digit-boundary and malformed headers x GET/HEAD x WSGI, ASGI and ASGI with the zero-copy-send extension; If-Range in 7 forms on a 22-header subset. Status, Content-Range, exact slices, multipart part framing and order, declared length = bytes sent, HEAD = GET headers with empty body, ASGI event protocol incl. more_body of zero-copy messages.",
+        text="8 (thorough 15) file sizes x chunk sizes {1,2,4,default} x every ordered set of <=2 (3) range specs over {0,1,2,size-1,size,size+1} plus digit-boundary and malformed headers x GET/HEAD x WSGI, ASGI and ASGI with the zero-copy-send extension; If-Range in 7 forms on a 22-header subset. Status, Content-Range, exact slices, multipart part framing and order, declared length = bytes sent, HEAD = GET headers with empty body, ASGI event protocol incl. more_body of zero-copy messages. Also same-path histories (the file replaced by another size between requests) and two requests in progress at once on one Files object: every interleaving of the two WSGI response iterables, all ASGI schedules with <=2 deviations; each response must equal the one served alone.",
         note="zero-copy server is a model of the extension text; sizes <= 1000; boundary pinned by seeding random",
     ),
     "C07": dict(
         engine="explore", level="exploration", design_ref="DESIGN.md §3 C07",
         technique="bounded exhaustive enumeration of request paths x app kinds x interfaces x directory spellings against a lexical resolver, with an audit hook on open()",
-        text="Every path of <=3 (thorough 4) segments over a 14-symbol alphabet (dot segments, empty segments, '..name', percent sequences, non-ASCII, index/page names) with and without trailing slash x Files/Pages x WSGI/ASGI x directory given as absolute path, relative path (working directory changed after construction) or package-relative, on a real temporary tree with parent/sibling decoys ('rootx', 'root.html', same-named files above); served bytes, not-found, redirect target (followed once) compared with a hand-written lexical resolver; every open() below the sandbox but outside the directory is a violation.",
+        text="Every path of <=3 (thorough 4) segments over a 14-symbol alphabet (dot segments, empty segments, '..name', percent sequences, non-ASCII, index/page names) with and without trailing slash x Files/Pages x WSGI/ASGI x directory given as absolute path, relative path (working directory changed after construction) or package-relative, on a real temporary tree with parent/sibling decoys ('rootx', 'root.html', same-named files above); served bytes, not-found, redirect target (followed once) compared with a hand-written lexical resolver; every open() below the sandbox but outside the directory is a violation. Also two requests at once on one app object: WSGI in two controlled threads with a scheduling point on every source line of the static-file modules (<=1 preemption, thorough 2), ASGI as two tasks with gated sends.",
         note="no symlinks; POSIX; trailing slash on a file path may be served or not found",
     ),
     "C20": dict(
         engine="explore", level="exploration", design_ref="DESIGN.md §3 C20",
         technique="bounded exhaustive enumeration of inner applications x wrapper stacks x requests, differential against the bare application",
-        text="14 response recipes (every response class, two Set-Cookie lines, unknown status codes, 0..3-chunk streams, file with Range, event stream, body echo) and 10 raw WSGI / 7 raw ASGI applications (list, tuple, generator, empty iterable, iterable with close(), 1..3 body messages, raising before/after start and after the first chunk) x every stack of depth 1..3 over identity middleware, header-editing middleware and identity view decorator x 4 requests x both interfaces: same status, same headers (Set-Cookie lines separate), same body, inner app run exactly once, only the edited header differs, same exception class.",
+        text="14 response recipes (every response class, two Set-Cookie lines, unknown status codes, 0..3-chunk streams, file with Range, event stream, body echo) and 10 raw WSGI / 7 raw ASGI applications (list, tuple, generator, empty iterable, iterable with close(), 1..3 body messages, raising before/after start and after the first chunk) x every stack of depth 1..3 over identity middleware, header-editing middleware and identity view decorator x 4 requests x both interfaces: same status, same headers (Set-Cookie lines separate), same body, inner app run exactly once, only the edited header differs, same exception class. Two requests in progress at once through one wrapped app object: all interleavings of the WSGI response iterables, ASGI schedules with <=2 deviations, and WSGI threads with line-level points in middleware.py.",
         note="repeated non-cookie headers may be combined (same meaning per RFC 9110); finite recipe list",
     ),
     "C06": dict(
